@@ -21,6 +21,8 @@ use std::net::SocketAddr;
 use std::sync::{Arc, Mutex};
 use std::time::{Duration, Instant};
 
+const HEARTBEAT_TIMEOUT_MS: u64 = 1500;
+
 #[derive(Clone, Debug, Serialize, Deserialize, PartialEq)]
 pub enum Step {
     /// send one message (text?, extra payload bytes, fragments 1..3)
@@ -43,6 +45,10 @@ pub struct ClientScript {
     /// send the Close frame right behind the last messages, without waiting for their echoes
     #[serde(default)]
     pub close_immediately: bool,
+    /// never answers the heartbeat pings and sends its Close frame just before the pong timeout elapses, so that the
+    /// close and the timeout are seen in the same poll iteration (still exactly one disconnect event)
+    #[serde(default)]
+    pub silent: bool,
 }
 
 #[derive(Clone, Debug, Serialize, Deserialize)]
@@ -133,6 +139,8 @@ fn run_client(idx: usize, sc: &ClientScript, addr: SocketAddr, shared: Arc<Share
             Ok(n) => buf.extend_from_slice(&tmp[..n]),
         }
     };
+    let t_handshake = Instant::now();
+    let silent = sc.silent;
     // reader thread: auto-pong, collect data frames
     let received: Arc<Mutex<(Vec<(bool, Vec<u8>)>, Option<String>, bool)>> = Arc::new(Mutex::new((Vec::new(), None, false)));
     let rec2 = received.clone();
@@ -154,6 +162,7 @@ fn run_client(idx: usize, sc: &ClientScript, addr: SocketAddr, shared: Arc<Share
                             rec2.lock().unwrap().1 = Some("masked or RSV frame from server".into());
                         }
                         match f.opcode {
+                            9 if silent => {}
                             9 => {
                                 let r = krng.next();
                                 let pong = ws::encode(&RFrame { fin: true, rsv: [false; 3], opcode: 10, mask: Some([r as u8, (r >> 8) as u8, 1, 2]), payload: f.payload.clone() });
@@ -194,6 +203,27 @@ fn run_client(idx: usize, sc: &ClientScript, addr: SocketAddr, shared: Arc<Share
     let send = |bytes: &[u8]| {
         let _ = ws_half.lock().unwrap().write_all(bytes);
     };
+    if silent {
+        // nothing is required of the server for this client except exactly one disconnect event
+        shared.gate.lock().unwrap().0[idx] = true;
+        let at = t_handshake + Duration::from_millis(HEARTBEAT_TIMEOUT_MS - 2);
+        let now = Instant::now();
+        if at > now {
+            std::thread::sleep(at - now);
+        }
+        send(&ws::encode(&RFrame { fin: true, rsv: [false; 3], opcode: 8, mask: key(), payload: vec![0x03, 0xe8] }));
+        let t = Instant::now();
+        while !received.lock().unwrap().2 && t.elapsed() < Duration::from_secs(5) {
+            std::thread::sleep(Duration::from_millis(1));
+        }
+        let _ = sock.shutdown(std::net::Shutdown::Both);
+        let _ = reader.join();
+        let g = received.lock().unwrap();
+        res.received = g.0.clone();
+        res.stray = g.1.clone();
+        shared.finished.fetch_add(1, std::sync::atomic::Ordering::SeqCst);
+        return res;
+    }
     for st in &sc.steps {
         match st {
             Step::Send(text, extra, frags) => {
@@ -316,7 +346,7 @@ pub fn run_scenario(s: &Scenario, ip: &str, seed: u64) -> (Vec<Fail>, bool) {
         g.2 = vec![Vec::new(); n];
         *shared.addrs.lock().unwrap() = vec![None; n];
     }
-    let heartbeat = s.heartbeat || s.clients.iter().any(|c| c.abrupt);
+    let heartbeat = s.heartbeat || s.clients.iter().any(|c| c.abrupt || c.silent);
     let (ws_tx, ws_rx) = std::sync::mpsc::channel();
     let mut ws_app: AsyncWebsocketApp<Arc<Shared>> = AsyncWebsocketApp::new_unlinked_with_config(shared.clone(), s.handler_threads.max(1))
         .with_polling_interval(if s.poll_ms == 0 { None } else { Some(Duration::from_millis(s.poll_ms as u64 % 11)) })
@@ -330,7 +360,7 @@ pub fn run_scenario(s: &Scenario, ip: &str, seed: u64) -> (Vec<Fail>, bool) {
             st.send(Message::new_binary(echo));
         });
     if heartbeat {
-        ws_app = ws_app.with_heartbeat(Heartbeat::new(Duration::from_millis(100), Duration::from_millis(1500)));
+        ws_app = ws_app.with_heartbeat(Heartbeat::new(Duration::from_millis(100), Duration::from_millis(HEARTBEAT_TIMEOUT_MS)));
     }
     let hook = ws_app.connect_hook().unwrap();
     let sender = ws_app.sender();
@@ -553,7 +583,7 @@ pub fn run_scenario(s: &Scenario, ip: &str, seed: u64) -> (Vec<Fail>, bool) {
     }) {
         fails.push(fail!("event-unknown-client", "an event was dispatched for an address no client used"));
     }
-    let nontrivial = (n >= 2 && s.external.iter().any(|(_, t)| t.is_none())) || s.clients.iter().any(|c| c.abrupt) || s.clients.iter().any(|c| c.steps.iter().any(|x| matches!(x, Step::Burst(_))));
+    let nontrivial = (n >= 2 && s.external.iter().any(|(_, t)| t.is_none())) || s.clients.iter().any(|c| c.abrupt || c.silent) || s.clients.iter().any(|c| c.steps.iter().any(|x| matches!(x, Step::Burst(_))));
     (fails, nontrivial)
 }
 
@@ -564,8 +594,11 @@ fn arb_scenario() -> impl Strategy<Value = Scenario> {
         1 => Just(Step::Ping),
         2 => any::<u8>().prop_map(Step::Sleep),
     ];
-    let client = (any::<u8>(), proptest::collection::vec(step, 0..8), prop_oneof![6 => Just(false), 1 => Just(true)], prop_oneof![3 => Just(false), 1 => Just(true)], prop_oneof![3 => Just(false), 1 => Just(true)])
-        .prop_map(|(start_delay_ms, steps, abrupt, linger, close_immediately)| ClientScript { start_delay_ms, steps, abrupt, linger: linger && !abrupt, close_immediately });
+    let client = (any::<u8>(), proptest::collection::vec(step, 0..8), prop_oneof![6 => Just(false), 1 => Just(true)], prop_oneof![3 => Just(false), 1 => Just(true)], prop_oneof![3 => Just(false), 1 => Just(true)], prop_oneof![9 => Just(false), 1 => Just(true)])
+        .prop_map(|(start_delay_ms, steps, abrupt, linger, close_immediately, silent)| {
+            let silent = silent && !abrupt;
+            ClientScript { start_delay_ms, steps: if silent { Vec::new() } else { steps }, abrupt, linger: linger && !abrupt && !silent, close_immediately, silent }
+        });
     (
         proptest::collection::vec(client, 1..9),
         prop_oneof![4 => Just(1usize), 3 => 2usize..9],
@@ -578,7 +611,7 @@ fn arb_scenario() -> impl Strategy<Value = Scenario> {
 }
 
 pub fn run(ctx: &Ctx) {
-    ctx.rule("scenarios of 1..8 reference clients (scripts over send text/binary in 1..3 fragments, bursts of 2..5 messages in one write, ping, short sleeps; ending with Close or vanishing abruptly with the heartbeat on) against AsyncWebsocketApp linked to a real App, handler pools of 1..8 threads, poll interval none..10 ms, an external AsyncSender issuing unicasts and broadcasts at generated moments, ending with shutdown; payloads carry (client#, seq#). Invariants over the handler event log and each client's received frames: connect and disconnect exactly once per client, each client message dispatched exactly once (multiset), with a 1-thread pool connect before the first message, messages in send order and nothing after disconnect; every echo unicast reaches only and exactly its client; external messages at most once, unicasts only at their addressee, required ones delivered; run() returns after the shutdown signal. Non-trivial: >=2 clients with a broadcast, an abrupt disconnect, or several messages in one write; distinct by scenario");
+    ctx.rule("scenarios of 1..8 reference clients (scripts over send text/binary in 1..3 fragments, bursts of 2..5 messages in one write, ping, short sleeps; ending with Close, vanishing abruptly with the heartbeat on, or staying silent to the heartbeat pings and sending Close just as the pong timeout elapses) against AsyncWebsocketApp linked to a real App, handler pools of 1..8 threads, poll interval none..10 ms, an external AsyncSender issuing unicasts and broadcasts at generated moments, ending with shutdown; payloads carry (client#, seq#). Invariants over the handler event log and each client's received frames: connect and disconnect exactly once per client, each client message dispatched exactly once (multiset), with a 1-thread pool connect before the first message, messages in send order and nothing after disconnect; every echo unicast reaches only and exactly its client; external messages at most once, unicasts only at their addressee, required ones delivered; run() returns after the shutdown signal. Non-trivial: >=2 clients with a broadcast, an abrupt disconnect, or several messages in one write; distinct by scenario");
     ctx.assume("interleavings come from the OS scheduler plus generated delays (no controlled scheduler); ordering is demanded only with a 1-thread handler pool; clients answer heartbeat pings; heartbeat 100 ms / timeout 1.5 s");
     let cases = ctx.tier.pick(96u32, 3000u32);
     let nshards = 16;
@@ -602,6 +635,9 @@ pub fn run(ctx: &Ctx) {
                 }
                 if s.clients.iter().any(|c| c.abrupt) {
                     labels.push("abrupt-disconnect");
+                }
+                if s.clients.iter().any(|c| c.silent) {
+                    labels.push("close-as-the-pong-timeout-elapses");
                 }
                 if s.external.iter().any(|(_, t)| t.is_none()) {
                     labels.push("broadcast");
